@@ -30,7 +30,7 @@ def run(ctx):
     if ctx.replay:
         allscn = [json.load(open(ctx.replay))["scenario"]["scn"]]
     vf.write_ndjson(scnp, allscn)
-    binp = ctx.go_test_bin("internal", ["internal"])
+    binp = ctx.go_test_bin("internal", ["c09"])
     ctx.run_harness(binp, "TestVerifC09Replay", env=dict(VERIF_SCN=scnp, VERIF_OUT=outp,
                     VERIF_MAX_STALL=300 if q else 4000), timeout=3000)
     res = vf.read_ndjson(outp)
